@@ -143,21 +143,29 @@ Proof.
   apply refute; [vm_compute; discriminate | vm_compute; reflexivity].
 Qed.
 
-Lemma refuted_F02d :
-  guard_F02d (parse_doc 3 spec_F02d) = false
-  /\ ~ faithful spec_F02d (parse_doc 3 spec_F02d) (sS 3).
-Proof.
-  split; [vm_compute; reflexivity|].
-  apply refute; [vm_compute; discriminate | vm_compute; reflexivity].
-Qed.
+(* F02d after the fix of build_schemas: the declared schema at the depth limit keeps its fields (regression) ... *)
+Lemma regression_F02d :
+  forallb (fun p => faithful_b spec_F02d (parse_doc 3 spec_F02d) (fst p)) spec_F02d = true.
+Proof. vm_compute. reflexivity. Qed.
 
-Lemma refuted_F02f :
-  guard_F02f (parse_doc default_max_depth spec_F02f) = false
-  /\ ~ faithful spec_F02f (parse_doc default_max_depth spec_F02f) sTree.
-Proof.
-  split; [vm_compute; reflexivity|].
-  apply refute; [vm_compute; discriminate | vm_compute; reflexivity].
-Qed.
+(* ... but an inline object nested deeper than the limit stays a depth placeholder without its declared field *)
+Definition sNode : str := [78;111;100;101].
+Definition salpha : str := [97;108;112;104;97].
+Definition sbeta : str := [98;101;116;97].
+Definition sNodeAlphaBeta : str := [78;111;100;101;65;108;112;104;97;66;101;116;97].
+Definition spec_F02d_inline : spec :=
+  [(sNode, Obj [(salpha, Obj [(sbeta, Obj [(sv, Prim PString)] [sv])] [])] [])].
+Lemma refuted_F02d :
+  guard_F02d (parse_doc 2 spec_F02d_inline) = false
+  /\ exists e, alookup sNodeAlphaBeta (parsed (parse_doc 2 spec_F02d_inline)) = Some e
+               /\ flags_of e = 4 /\ fields_of e = [].
+Proof. split; [vm_compute; reflexivity|]. eexists. vm_compute. repeat split. Qed.
+
+(* F02f fixed: the array schema whose inline item refers back to it is a real model, not a placeholder *)
+Lemma regression_F02f :
+  faithful_b spec_F02f (parse_doc default_max_depth spec_F02f) sTree = true
+  /\ has_ev EvMarked (parse_doc default_max_depth spec_F02f) = false.
+Proof. vm_compute. split; reflexivity. Qed.
 
 (* ================================================================== C02_partial: fidelity on clean runs ==============
    Structure: (1) [le]: events / out-of-fuel / identities / detected cycles only grow along a run (unconditional);
@@ -387,12 +395,22 @@ Section Mono.
     - apply le_step, IH.
   Qed.
 
-  Lemma le_build : forall fuel l s, le s (build md S fuel l s).
+  Lemma le_build_pass : forall fuel l s, le s (build_pass md S fuel l s).
   Proof.
     induction l as [|[n nd] l IH]; intros s; simpl; [apply le_refl|].
-    destruct (registered n s || registered (cls n) s); [apply IH|].
-    eapply le_trans; [apply mono_parse_schema | apply IH].
+    destruct (unparsed n s && unparsed (cls n) s); [|apply IH].
+    eapply le_trans; [|apply IH]. eapply le_trans; [apply le_set_state | apply mono_parse_schema].
   Qed.
+
+  Lemma le_build_iter : forall k fuel s, le s (build_iter md S k fuel s).
+  Proof.
+    induction k as [|k IH]; intros fuel s; cbn [build_iter]; [apply le_refl|].
+    destruct (filter (pending_b s) S) as [|p l]; [apply le_refl|].
+    apply (le_trans _ (build_pass md S fuel (p :: l) s)); [apply le_build_pass | apply IH].
+  Qed.
+
+  Lemma le_build : forall fuel s, le s (build md S fuel s).
+  Proof. intros. apply le_build_iter. Qed.
 End Mono.
 
 Lemma alookup_In : forall {V} (l : list (str * V)) k v, alookup k l = Some v -> In (k, v) l.
@@ -996,19 +1014,40 @@ Section Final.
     - simpl. apply step_ok; [exact HS | exact IH | apply mono_parse_schema].
   Qed.
 
-  Lemma build_ok : forall fuel l s,
+  Lemma build_pass_ok : forall fuel l s,
     (forall n nd, In (n, nd) l -> alookup n S = Some nd) ->
-    Inv S s -> events (build md S fuel l s) = [] -> oof (build md S fuel l s) = false ->
-    Inv S (build md S fuel l s).
+    Inv S s -> events (build_pass md S fuel l s) = [] -> oof (build_pass md S fuel l s) = false ->
+    Inv S (build_pass md S fuel l s).
   Proof.
     induction l as [|[n nd] l IH]; intros s Hl HI He Ho; simpl in *; [exact HI|].
     assert (Hl' : forall n0 nd0, In (n0, nd0) l -> alookup n0 S = Some nd0) by (intros; apply Hl; right; assumption).
-    destruct (registered n s || registered (cls n) s); [apply IH; assumption|].
-    destruct (parse_schema md S fuel (Some n) nd s) as [r s1] eqn:E. simpl in *.
-    pose proof (le_build md S fuel l s1) as (L1 & L2 & _).
-    pose proof (parse_schema_ok fuel (Some n) nd s r s1 E (L1 He) (L2 Ho) HI (Hl n nd (or_introl eq_refl))) as (I1 & _).
+    destruct (unparsed n s && unparsed (cls n) s); [|apply IH; assumption].
+    destruct (parse_schema md S fuel (Some n) nd (set_state n NotStarted s)) as [r s1] eqn:E. simpl in *.
+    pose proof (le_build_pass md S fuel l s1) as (L1 & L2 & _).
+    assert (HI0 : Inv S (set_state n NotStarted s)) by (apply (Inv_tracker S s); auto).
+    pose proof (parse_schema_ok fuel (Some n) nd _ r s1 E (L1 He) (L2 Ho) HI0 (Hl n nd (or_introl eq_refl))) as (I1 & _).
     apply IH; assumption.
   Qed.
+
+  Lemma build_iter_ok : forall k fuel s,
+    nodup_strs (map fst S) = true ->
+    Inv S s -> events (build_iter md S k fuel s) = [] -> oof (build_iter md S k fuel s) = false ->
+    Inv S (build_iter md S k fuel s).
+  Proof.
+    induction k as [|k IH]; intros fuel s ND HI He Ho; cbn [build_iter] in *; [exact HI|].
+    destruct (filter (pending_b s) S) as [|p l] eqn:Ef; [exact HI|].
+    pose proof (le_build_iter md S k fuel (build_pass md S fuel (p :: l) s)) as (L1 & L2 & _).
+    apply IH; try assumption.
+    apply build_pass_ok; auto.
+    intros n nd Hin. apply nodup_alookup; [exact ND|].
+    rewrite <- Ef in Hin. apply filter_In in Hin. apply Hin.
+  Qed.
+
+  Lemma build_ok : forall fuel s,
+    nodup_strs (map fst S) = true ->
+    Inv S s -> events (build md S fuel s) = [] -> oof (build md S fuel s) = false ->
+    Inv S (build md S fuel s).
+  Proof. intros. apply build_iter_ok; assumption. Qed.
 
   Lemma Inv_st0 : Inv S st0.
   Proof. split; [intros k e []|reflexivity]. Qed.
@@ -1022,7 +1061,7 @@ Section Final.
     assert (ND : nodup_strs (map fst S) = true).
     { unfold core_spec in HS. apply andb_true_iff in HS. apply HS. }
     assert (HI : Inv S s).
-    { apply build_ok; [intros; apply nodup_alookup; assumption | apply Inv_st0 | exact He | exact Ho]. }
+    { apply build_ok; [exact ND | apply Inv_st0 | exact He | exact Ho]. }
     apply in_map_iff in Hn. destruct Hn as [[n' nd] [Hn' Hin]]. simpl in Hn'. subst n'.
     pose proof (nodup_alookup _ _ _ ND Hin) as Hl.
     destruct (spec_facts S HS _ _ Hl) as (_ & Hcls & _).
@@ -1583,38 +1622,56 @@ Section Static.
   Definition rest (s : st) : Prop :=
     events s = [] /\ oof s = false /\ TI s /\ Inv S s /\ stack s = [] /\ depth s = 0%N.
 
-  Lemma build_tr : forall l s,
+  Lemma unparsed_clean : forall k s, Inv S s -> unparsed k s = negb (registered k s).
+  Proof.
+    intros k s [HI _]. unfold unparsed, registered. destruct (alookup k (parsed s)) as [e|] eqn:E; [|reflexivity].
+    destruct (HI _ _ (alookup_In _ _ _ E)) as [(? & _ & _ & (_ & _ & Dm & _) & _) _]. rewrite Dm. reflexivity.
+  Qed.
+
+  Lemma build_pass_tr : forall l s,
     (forall n nd, In (n, nd) l -> alookup n S = Some nd) ->
     rest s ->
-    rest (build md S (fuel_for md) l s)
-    /\ (forall k, registered k s = true -> registered k (build md S (fuel_for md) l s) = true)
-    /\ (forall n nd, In (n, nd) l -> registered n (build md S (fuel_for md) l s) = true).
+    rest (build_pass md S (fuel_for md) l s)
+    /\ (forall k, registered k s = true -> registered k (build_pass md S (fuel_for md) l s) = true)
+    /\ (forall n nd, In (n, nd) l -> registered n (build_pass md S (fuel_for md) l s) = true).
   Proof.
     induction l as [|[n nd] l IH]; intros s Hl R; simpl.
     - split; [exact R|]. split; [auto|]. intros n nd [].
     - assert (Hl' : forall n0 nd0, In (n0, nd0) l -> alookup n0 S = Some nd0) by (intros; apply Hl; right; assumption).
       pose proof (Hl n nd (or_introl eq_refl)) as Hn.
       destruct (spec_facts S HS _ _ Hn) as (_ & Hcls & _).
-      rewrite Hcls, orb_diag.
-      destruct (registered n s) eqn:Ern.
-      + destruct (IH s Hl' R) as (R' & M & Al). split; [exact R'|]. split; [exact M|].
+      destruct R as (A & O & B & C & D & E0).
+      rewrite Hcls, andb_diag, (unparsed_clean n s C).
+      destruct (registered n s) eqn:Ern; simpl negb; cbv iota.
+      + destruct (IH s Hl' (conj A (conj O (conj B (conj C (conj D E0)))))) as (R' & M & Al).
+        split; [exact R'|]. split; [exact M|].
         intros n0 nd0 [Heq|Hin]; [inversion Heq; subst; apply M; exact Ern | eapply Al; exact Hin].
-      + destruct (parse_schema md S (fuel_for md) (Some n) nd s) as [r s1] eqn:E. simpl.
-        destruct R as (A & O & B & C & D & E0).
+      + set (s0 := set_state n NotStarted s).
+        destruct (parse_schema md S (fuel_for md) (Some n) nd s0) as [r s1] eqn:E. simpl.
         pose proof (depth_named n nd Hn) as Hd.
         assert (HF : (4 * N.of_nat (rk n) + slack (Some n) nd <= N.of_nat (fuel_for md))%N).
         { unfold slack, fuel_for. lia. }
-        assert (P : pre s (rk n) (4 * N.of_nat (rk n) + slack (Some n) nd)).
-        { unfold pre. repeat (split; [assumption|]). split.
-          - intros x Hx. rewrite D in Hx. destruct Hx.
-          - rewrite E0. unfold slack. lia. }
-        assert (Side : alookup n S = Some nd /\ rk n = rk n /\ registered n s = false /\ ~ In n (stack s)).
-        { repeat split; auto. rewrite D. intros []. }
-        pose proof (parse_schema_tr (fuel_for md) (Some n) nd s (rk n) r s1 E HF P (ranked n nd Hn) Side)
+        assert (B0 : TI s0).
+        { destruct B as [T1 T2]. split; intros m; destruct (str_eq_dec m n) as [->|Hmn].
+          - unfold s0. rewrite state_of_set_same. discriminate.
+          - unfold s0. rewrite state_of_set_other by exact Hmn. apply T1.
+          - unfold s0. rewrite state_of_set_same. exact I.
+          - unfold s0. rewrite state_of_set_other by exact Hmn. apply T2. }
+        assert (C0 : Inv S s0) by (apply (Inv_tracker S s); auto).
+        assert (P : pre s0 (rk n) (4 * N.of_nat (rk n) + slack (Some n) nd)).
+        { unfold pre. split; [exact A|]. split; [exact O|]. split; [exact B0|]. split; [exact C0|]. split.
+          - intros x Hx. change (stack s0) with (stack s) in Hx. rewrite D in Hx. destruct Hx.
+          - change (depth s0) with (depth s). rewrite E0. unfold slack. lia. }
+        assert (Side : alookup n S = Some nd /\ rk n = rk n /\ registered n s0 = false /\ ~ In n (stack s0)).
+        { repeat split; auto. change (stack s0) with (stack s). rewrite D. intros []. }
+        pose proof (parse_schema_tr (fuel_for md) (Some n) nd s0 (rk n) r s1 E HF P (ranked n nd Hn) Side)
           as (A1 & O1 & B1 & C1 & D1 & E1 & G1 & K1).
-        pose proof (parse_schema_ok md S HS (fuel_for md) (Some n) nd s r s1 E A1 O1 C Hn) as (_ & _ & Hreg).
-        assert (R1 : rest s1) by (unfold rest; repeat (split; [first [assumption | congruence]|]); congruence).
-        destruct (IH s1 Hl' R1) as (R' & M & Al). split; [exact R'|]. split; [intros k Hk0; apply M, G1, Hk0|].
+        pose proof (parse_schema_ok md S HS (fuel_for md) (Some n) nd s0 r s1 E A1 O1 C0 Hn) as (_ & _ & Hreg).
+        assert (R1 : rest s1).
+        { unfold rest. split; [exact A1|]. split; [exact O1|]. split; [exact B1|]. split; [exact C1|].
+          split; [rewrite D1; exact D | rewrite E1; exact E0]. }
+        destruct (IH s1 Hl' R1) as (R' & M & Al). split; [exact R'|].
+        split; [intros k Hk0; apply M, G1; exact Hk0|].
         intros n0 nd0 [Heq|Hin]; [|eapply Al; exact Hin]. inversion Heq; subst.
         apply M. unfold registered. rewrite Hreg. reflexivity.
   Qed.
@@ -1626,16 +1683,41 @@ Section Static.
     - split; [apply Inv_st0|]. split; reflexivity.
   Qed.
 
-  (* static: on acyclic core documents within the depth limit the run fires no loss-relevant branch at all *)
+  Lemma filter_all : forall {A} (f : A -> bool) l, (forall x, In x l -> f x = true) -> filter f l = l.
+  Proof.
+    induction l as [|x l IH]; intros H; simpl; [reflexivity|].
+    rewrite (H x (or_introl eq_refl)). f_equal. apply IH. intros y Hy. apply H. right. exact Hy.
+  Qed.
+  Lemma filter_none : forall {A} (f : A -> bool) l, (forall x, In x l -> f x = false) -> filter f l = [].
+  Proof.
+    induction l as [|x l IH]; intros H; simpl; [reflexivity|].
+    rewrite (H x (or_introl eq_refl)). apply IH. intros y Hy. apply H. right. exact Hy.
+  Qed.
+
+  (* static: on acyclic core documents within the depth limit the run fires no loss-relevant branch at all,
+     and build_schemas needs exactly one pass *)
   Theorem acyclic_clean :
     let s := parse_doc md S in
     events s = [] /\ oof s = false /\ all_present S s = true.
   Proof.
     assert (ND : nodup_strs (map fst S) = true) by (unfold core_spec in HS; apply andb_true_iff in HS; apply HS).
-    destruct (build_tr S st0 (fun n nd Hin => nodup_alookup S n nd ND Hin) rest_st0) as ((A & O & _) & _ & Al).
-    simpl. split; [exact A|]. split; [exact O|].
+    unfold parse_doc, build.
+    destruct (length S) as [|k] eqn:EL.
+    { destruct S; [|discriminate]. simpl. auto. }
+    cbn [build_iter].
+    assert (FA : filter (pending_b st0) S = S) by (apply filter_all; intros [n nd] _; reflexivity).
+    rewrite FA. destruct S as [|p0 l0] eqn:ES; [discriminate|]. rewrite <- ES in *.
+    destruct (build_pass_tr S st0 (fun n nd Hin => nodup_alookup S n nd ND Hin) rest_st0) as (R1 & _ & Al).
+    set (s1 := build_pass md S (fuel_for md) S st0) in *.
+    assert (Stop : forall k', build_iter md S k' (fuel_for md) s1 = s1).
+    { intros [|k']; [reflexivity|]. cbn [build_iter].
+      rewrite (filter_none (pending_b s1) S); [reflexivity|].
+      intros [n nd] Hin. unfold pending_b. simpl fst.
+      destruct R1 as (_ & _ & _ & C1 & _). rewrite (unparsed_clean n s1 C1), (Al n nd Hin). reflexivity. }
+    rewrite Stop. destruct R1 as (A & O & _).
+    split; [exact A|]. split; [exact O|].
     unfold all_present. apply forallb_forall. intros [n nd] Hin. simpl.
-    unfold parse_doc. rewrite (Al n nd Hin). reflexivity.
+    rewrite (Al n nd Hin). reflexivity.
   Qed.
 
   Theorem C02_acyclic : forall n, In n (map fst S) -> faithful S (parse_doc md S) n.
@@ -1670,4 +1752,21 @@ Example required_only_branch :
   /\ model_fields (parse_doc default_max_depth spec_strict) sLeaf
      = Some [(sident, true, TPrim PInteger); (slabel, true, TPrim PString); (sowner, true, TRef sAccount); (snote, false, TPrim PString)]
   /\ declared spec_strict sLeaf = model_fields (parse_doc default_max_depth spec_strict) sLeaf.
+Proof. vm_compute. repeat split. Qed.
+
+(* regression for F02e (fixed by 635317b): a top-level pure alias, declared before or after its target and chained,
+   is registered under its own name with exactly the target's declared fields *)
+Definition sAlias : str := [65;108;105;97;115].
+Definition sAliasTwo : str := [65;108;105;97;115;84;119;111].
+Definition spec_alias : spec :=
+  [(sAliasTwo, Ref sAlias); (sAlias, Ref sBase);
+   (sBase, Obj [(sident, Prim PInteger); (slabel, Prim PString)] [sident])].
+Example alias_regression :
+  all_present spec_alias (parse_doc default_max_depth spec_alias) = true
+  /\ events (parse_doc default_max_depth spec_alias) = []
+  /\ faithful_b spec_alias (parse_doc default_max_depth spec_alias) sAlias = true
+  /\ faithful_b spec_alias (parse_doc default_max_depth spec_alias) sAliasTwo = true
+  /\ faithful_b (rev spec_alias) (parse_doc default_max_depth (rev spec_alias)) sAliasTwo = true
+  /\ model_fields (parse_doc default_max_depth spec_alias) sAliasTwo
+     = Some [(sident, true, TPrim PInteger); (slabel, false, TPrim PString)].
 Proof. vm_compute. repeat split. Qed.
